@@ -332,6 +332,9 @@ ADDENDA = {
     "C36": "Also decided: every occurrence of a bucket/proof/reservation in an invocation's arguments is consumed (no collapsing collection between the walk and consume_*).",
     "C40": "Also decided: proofs of the controlled asset are created only behind the primary-role Unlocked arm.",
     "C41": "Also decided: inside contribute a value is rounded up only where no pool units are in circulation.",
+    "C14": "Also decided: merging a commit never shrinks a staged Delta map (a Delete stays recorded as a tombstone).",
+    "C16": "Also decided: audited panic surface of the key mapper (a key the writer emits always maps back).",
+    "C37": "Also decided: a general constraint is declared valid only after lower/upper, required/upper and lower/allow-list-size have been compared and required ids tested to be a subset of the allow-list.",
     "C12": "Also decided: scan_keys tests its limit against the collected keys, never ahead of the presence filter.",
     "C22": "Also decided: every validator matching ReferenceValidation maps each variant to the same audited NodeId predicate.",
     "C38": "Also decided: a resource that becomes individually tracked for an account inherits the account's earlier unknown deposits.",
